@@ -45,7 +45,10 @@ def showTable (t : TableOut) : String :=
     | none => s!"{s.toHex}=?"
   let pts := t.points.map fun p =>
     let den := match p.den with | some d => showBits d | none => "~"
-    s!"{p.bench.toHex}#{p.ser.toHex}#{p.date.toHex}#{showBits p.num}#{den}"
+    -- delivery order: a complete point has both samples ascending (`sort.Float64s` at the end of
+    -- AllComparisonSeries); an incomplete one is not sorted by the code and not judged
+    let ord := if p.den.isSome then "1" else "n"
+    s!"{p.bench.toHex}#{p.ser.toHex}#{p.date.toHex}#{showBits p.num}#{den}#{ord}"
   s!"{t.unit.toHex}|B:{hexList t.benches}|S:{hexList t.series}|H:{joinOr hp}|P:{joinOr pts}"
 
 def showSeries (r : Option (List TableOut)) : String :=
@@ -65,7 +68,7 @@ def handleSeries (l : Line) : IO Unit := do
     IO.println s!"obs {l.id} det=0 tables={hexList names}"
   let wf := Spec.Series.WF env opts pol evs
   let kf := if wf then "" else " kf=N6"
-  IO.println s!"spec {l.id} inv=1 dump={showSeries (Spec.Series.specSeries env opts pol evs)}{kf}"
+  IO.println s!"spec {l.id} inv=1 rep=1 dump={showSeries (Spec.Series.specSeries env opts pol evs)}{kf}"
 
 /-! bootstrap -/
 
